@@ -413,8 +413,9 @@ def draw_bound(draw, kind, xbar_j):
 
 @st.composite
 def det_case(draw, atom_names=None, bound_kinds=None, max_atoms=2, int_ok=False, bounded_by='dual',
-             fronts=('ro', 'dro'), obj_atom_prob=0.0, cones=False, strict=False):
+             fronts=('ro', 'dro'), obj_atom_prob=0.0, cones=False, strict=False, frac_int=False):
     """a feasible, bounded deterministic model.
+    frac_int -> integer columns keep fractional bounds half of the time (z <= 2.5 means z <= 2 for an integer z)
     bounded_by='box'  -> every variable gets finite bounds (any objective is bounded)
     bounded_by='dual' -> the objective is a non-negative combination of active-side constraint normals."""
     n = draw(st.integers(1, 5))
@@ -441,7 +442,8 @@ def det_case(draw, atom_names=None, bound_kinds=None, max_atoms=2, int_ok=False,
         kind = 'box' if bounded_by == 'box' else draw(st.sampled_from(kinds))
         if vtypes[j] == 'I' and kind in ('lb', 'ub', 'box'):
             b, xbar[j] = draw_bound(draw, kind, xbar[j])
-            b = [b[0], None if b[1] is None else float(np.floor(b[1])), None if b[2] is None else float(np.ceil(b[2]))]
+            if not (frac_int and draw(st.booleans())):
+                b = [b[0], None if b[1] is None else float(np.floor(b[1])), None if b[2] is None else float(np.ceil(b[2]))]
         else:
             b, xbar[j] = draw_bound(draw, kind, xbar[j])
         bounds.append(b)
